@@ -100,7 +100,7 @@ def main(argv=None):
                 assumptions.append(s)
 
     known = load_known()
-    known_for = [k for k in known.get("findings", []) if k["property"] == a.prop]
+    known_for = [k for k in known.get("findings", []) if a.prop in k.get("properties", [k.get("property")])]
 
     total = discharged = 0
     by_backend = {}
@@ -138,6 +138,9 @@ def main(argv=None):
             problems.append(("error", "%s: %s" % (c.qualname, run.message)))
         elif n == 0 or run.completed_paths == 0:
             problems.append(("error", "%s: zero obligations / no completed path (vacuous)" % c.qualname))
+        elif any(x.endswith("/return") and ("call:" + x) not in run.covered for x in run.called):
+            dead = sorted(x for x in run.called if x.endswith("/return") and ("call:" + x) not in run.covered)
+            problems.append(("error", "%s: the contract of %s is never satisfiable where it is called (vacuous modular call)" % (c.qualname, ", ".join(dead))))
         elif run.canary_ok is False:
             problems.append(("error", "%s: canary `False` is provable at an exit (contradictory assumptions)" % c.qualname))
 
